@@ -250,3 +250,21 @@ PROPS["C15"] = retention("C15", "Iggy.Props.C15", ["gate", "poll-", "retention-i
                          ALL_POLL_KINDS | {"maintain", "update-topic", "create-topic", "figures"}, ASSUME_NODE + [
                              "the almost-full threshold (size as f64 * 0.9) as u64 is modelled as floor(9*size/10); equal for the sizes used (exact in f64 below 2^53)"])
 PROPS["C16"] = retention("C16", "Iggy.Props.C16", ["figures-"], {"figures"}, ASSUME_NODE, mix=True)
+
+import gen_catalog
+
+
+def catalog(prop, module, spec_prefixes, corr_kinds, assumptions, n_quick=140, n_thorough=2500):
+    def run(p, tier, seed, replay, t0):
+        return run_node_property(p, tier, seed, replay, t0, module=module, gen=gen_catalog.gen,
+                                 n_quick=n_quick, n_thorough=n_thorough, spec_prefixes=spec_prefixes,
+                                 corr_kinds=corr_kinds, assumptions=assumptions)
+    return {"run": run}
+
+
+PROPS["C08"] = catalog("C08", "Iggy.Props.C08", ["group-", "poll-next", "poll-"],
+                       {"group", "groups", "join", "leave", "close", "me", "poll-partition", "poll-offsets",
+                        "poll-content", "poll-cur", "poll-status", "create-group", "delete-group",
+                        "create-parts", "delete-parts"},
+                       ASSUME_NODE + ["hash-map iteration order of group members is an input of the model: the harness prints the implementation's member order after every membership change and the model adopts it (every theorem holds for every order)",
+                                      "liveness ('someone keeps polling') is the caller's; the theorems give safety (delivered is a prefix) + progress (a served poll on a partition with undelivered messages is non-empty)"])
